@@ -326,8 +326,10 @@ package catalog
 // Repeatability (C16). The regex example generator of the dependency is seeded once per schema and advanced by every
 // call (read in jsight-schema-core/notations/regex: generatorOnce + Generate), so it may be called only inside a
 // sync.Once cache fill. JSchema.Example builds a new example from the AST on every call (assumed repeatable).
+// Its result is a new []byte (read: `[]byte(g.Generate(1))`), so it may be cached; JSchema.Example returns a slice of a pooled
+// buffer (read in jsight-schema-core: exampleBufferPool) and must be converted to a string before the next call, never cached.
 //@ extern (*github.com/jsightapi/jsight-schema-core/notations/regex.RSchema).Example(s)
-//@   attr stateful
+//@   attr stateful fresh
 
 // Frame of the lazy compilation of a JSight schema (C16): what the cache fill under onceCompile may write. It builds new
 // ExchangeContent trees and writes the schema's cache fields and the string sets; it must not write an ExchangeContent
